@@ -336,11 +336,11 @@ func checkC03(c *Ctx) error {
 			continue
 		}
 		if !u.Compiled {
-			c.Side("C01", "does-not-compile:"+errClass(u.CompileErr), fmt.Sprintf("unit %s: %s", u.ID, firstLines(u.CompileErr, 6)), files)
+			c.Violate("does-not-compile:"+errClass(u.CompileErr), fmt.Sprintf("unit %s: %s", u.ID, firstLines(u.CompileErr, 6)), files)
 			continue
 		}
 		if len(u.Results) == 0 {
-			c.Side("C01", "probe:"+sigWords(u.ProbeErr), fmt.Sprintf("unit %s: %s", u.ID, u.ProbeErr), files)
+			c.Violate("probe:"+sigWords(u.ProbeErr), fmt.Sprintf("unit %s: %s", u.ID, u.ProbeErr), files)
 			continue
 		}
 		exp := RunModel(u.Cfg, u.Ops, nil)
